@@ -65,6 +65,12 @@ pub fn pair_families(tier: Tier, total_quick: u64, total_thorough: u64, selfx: b
     v
 }
 
+/// deeply nested results (C01, C02): concentric rings, see strat::rings_shape
+pub fn with_rings(mut v: Vec<FamilyPlan>, tier: Tier) -> Vec<FamilyPlan> {
+    v.push(fam("rings", tier.pick(300, 20_000), false, || strat::case(strat::rings_shape(), false)));
+    v
+}
+
 /// all pairs of bitmaps on a w x h unit grid (merge flags fixed to true), index = a + b * 2^(w*h)
 pub fn rect_pair_space(label: &'static str, w: usize, h: usize) -> Space {
     let n = w * h;
@@ -100,7 +106,7 @@ pub fn spec(id: &str, tier: Tier) -> Option<Spec> {
             id: "C02",
             rule: "same generation as C01; oracle is purely structural on the result's own arrangement: (i) no point in two polygons, (ii) no point in two holes of a polygon and every hole point inside that polygon's exterior, (iii) polygon-wise reading == even-odd over all result rings, (iv) no atomic boundary piece occurs twice, (v) every hole has an interior face. Non-trivial: some result has >= 2 rings or a hole, or the operands share a boundary segment.",
             design_ref: "§5 C02",
-            families: pair_families(tier, 120_000, 4_800_000, true, false, 28),
+            families: with_rings(pair_families(tier, 120_000, 4_800_000, true, false, 28), tier),
             spaces: match tier {
                 Tier::Quick => vec![rect_pair_space("all bitmap pairs on the 2x2 unit grid", 2, 2), rect_pair_space("all bitmap pairs on the 3x2 unit grid", 3, 2)],
                 Tier::Thorough => vec![rect_pair_space("all bitmap pairs on the 3x2 unit grid", 3, 2), rect_pair_space("all bitmap pairs on the 3x3 unit grid", 3, 3)],
